@@ -106,6 +106,20 @@ def synthetic_pools():
     O, N, S = ("O", 0), ("N", 1), ("O", -1)
     pools.append([two(O, O, 1), two(O, N, 11), two(O, O, 21, flip=True), two(N, O, 31), two(N, N, 41), two(O, S, 51)])
     pools.append([two(O, N, 1), two(O, O, 11), two(N, N, 21), two(N, O, 31, flip=True), two(S, S, 41), two(O, O, 51)])
+    # the null graph (centre of a reaction in which no bond changes) several times among other items
+    g = eg.to_nx(reps[0], SYN_V, SYN_E)
+    e1, e2, e3 = nx.Graph(), nx.Graph(), nx.Graph()
+    e3.graph["name"] = "empty"
+    pools.append([e1, copy.deepcopy(g), e2, relabel(g, 40), e3, change_charge(g)])
+    # items that agree on element, charge and bond order and differ in an attribute outside the class definition (hydrogen count)
+    def with_h(x, hs):
+        y = copy.deepcopy(x)
+        for k, v in enumerate(sorted(y.nodes)):
+            y.nodes[v]["hcount"] = hs[k % len(hs)]
+        return y
+
+    g2 = eg.to_nx(reps[1], SYN_V, SYN_E, node_ids=list(range(60, 60 + len(reps[1][0]))))
+    pools.append([with_h(g, [2]), with_h(g, [3]), with_h(relabel(g, 40), [0, 1, 3]), with_h(g2, [1]), with_h(g2, [0, 2]), with_h(change_charge(g), [3])])
     return pools
 
 
@@ -126,7 +140,7 @@ def gen(tier, seed):
     wins = list(range(nwin)) if tier != "quick" else [(5 * k + seed) % nwin for k in range(20)]
     for w in sorted(set(wins)):
         yield w
-    for k in range(6):
+    for k in range(8):
         yield nwin + k
 
 
